@@ -193,6 +193,88 @@ func probeBigRootRecord(rep *Report, prop string) {
 	}
 }
 
+// probeLongKeys: keys at and just below the longest length the format allows (65535 bytes) must come back from the file
+// byte for byte (C02, C14); a key of 65536 bytes must be refused.
+func probeLongKeys(rep *Report, prop string) {
+	w := &World{Timeout: 60e9}
+	res := w.guard(func() string {
+		mf := NewMemFile()
+		s, err := gkvlite.NewStore(mf)
+		if err != nil {
+			return "open: " + err.Error()
+		}
+		c := s.SetCollection("long", nil)
+		lens := []int{65535, 65534, 65521, 65520, 65519, 65504, 40000}
+		mk := func(n int) []byte {
+			k := make([]byte, n)
+			for i := range k {
+				k[i] = byte('a' + (i*7+n)%26)
+			}
+			k[0] = byte('A' + n%7) // distinct first bytes: distinct keys
+			return k
+		}
+		want := map[string]string{}
+		for _, n := range lens {
+			k := mk(n)
+			v := fmt.Sprintf("value-of-%d", n)
+			if err := c.SetItem(&gkvlite.Item{Key: k, Val: []byte(v), Priority: int32(n)}); err != nil {
+				return fmt.Sprintf("SetItem with a key of %d bytes: %v", n, err)
+			}
+			want[string(k)] = v
+		}
+		if err := c.SetItem(&gkvlite.Item{Key: mk(65536), Val: []byte("x"), Priority: 1}); err == nil {
+			return "SetItem with a key of 65536 bytes was accepted"
+		}
+		if err := s.Flush(); err != nil {
+			return "flush: " + err.Error()
+		}
+		s2, err := gkvlite.NewStore(NewMemFileFrom(mf.Bytes()))
+		if err != nil {
+			return "re-open: " + err.Error()
+		}
+		c2 := s2.GetCollection("long")
+		if c2 == nil {
+			return "collection missing after re-open"
+		}
+		got := 0
+		var bad string
+		err = c2.VisitItemsAscend(nil, true, func(i *gkvlite.Item) bool {
+			v, ok := want[string(i.Key)]
+			if !ok {
+				bad = fmt.Sprintf("after re-open a key of %d bytes comes back that was never set (its last bytes: %x)", len(i.Key), i.Key[len(i.Key)-16:])
+				return false
+			}
+			if v != string(i.Val) {
+				bad = fmt.Sprintf("after re-open the key of %d bytes has value %q, flushed %q", len(i.Key), i.Val, v)
+				return false
+			}
+			got++
+			return true
+		})
+		if err != nil {
+			return "visit after re-open: " + err.Error()
+		}
+		if bad != "" {
+			return bad
+		}
+		if got != len(lens) {
+			return fmt.Sprintf("%d of %d items after re-open", got, len(lens))
+		}
+		for _, n := range lens {
+			if v, err := c2.Get(mk(n)); err != nil || string(v) != want[string(mk(n))] {
+				return fmt.Sprintf("Get of the key of %d bytes after re-open: %q %v", n, v, err)
+			}
+		}
+		return ""
+	})
+	rep.Evaluations++
+	if res != "" {
+		rep.Violation("", false, map[string]interface{}{"observed": res, "property_checked": prop,
+			"expected": "keys of 40000..65535 bytes come back from the file byte for byte; 65536 bytes are refused",
+			"history":  []string{"SetItem with keys of 65535, 65534, 65521, 65520, 65519, 65504, 40000 bytes", "SetItem with a key of 65536 bytes", "Flush", "re-open a copy", "visit, Get"}})
+	}
+}
+
 // probeValueIsRootRecord: a committed value that is itself a complete, self-consistent root record for the file
 // position it lands at makes FlushRevert stop at it (C08): the store comes back empty instead of in the state of
 // the previous Flush.  (C03 excludes such values explicitly; C08's statement does not.)  Witness found by proof:
